@@ -269,8 +269,11 @@ PROPS["C16"] = dict(
 )
 
 PROPS["C17"] = dict(
-    level="model_checking",
+    level="proof",
     steps=[
+        dict(kind="verus", unit="c17_auth", code_functions=["valid", "expired", "refresh", "exists", "get_uid_by_token", "refresh_session", "create_session",
+                                                             "create_session_with_lifetime", "invalidate_session", "invalidate_user_session", "remove_user",
+                                                             "get_user_by_uid", "get_user_by_token", "get_session_by_token"]),
         dict(kind="kani", crate="humphrey_auth", module="in_auth", tag="c17", jobs=8, harnesses=[
             H("c17_session_clock", "complete", "Session::valid <=> now < expiry, expired <=> expiry < now, refresh sets expiry = now + lifetime, for every clock and expiry value"),
             H("c17_get_uid_by_token", "bounded", "get_uid_by_token from an arbitrary well-formed 2-user database: Ok(uid) iff the token is that user's stored token and not expired; changes nothing", bound="2 users, 1-character stored tokens, symbolic expiries and clock", timeout=900),
@@ -285,11 +288,13 @@ PROPS["C17"] = dict(
                     dict(file="humphrey-auth/src/session.rs", item="Session::{valid, expired, refresh}", engine="kani"),
                     dict(file="humphrey-auth/src/database.rs", item="impl AuthDatabase for Vec<User>", engine="kani")],
     assumptions=[
+        "Verus unit c17_auth: AuthProvider's operations are proved against the CONTRACT of the AuthDatabase trait (abstract view = sequence of users) for any conforming database of any size; of the reference database Vec<User> the three lookups are proved against that contract, update_user / remove_user (iter_mut + closure writing through &mut, retain) are decided only by the bounded Kani harnesses, which run AuthProvider on the real Vec<User>",
+        "derived Clone of Session / User returns an equal value; Option::filter, String == &str, AsRef blanket impls (&T, str) as specified in contracts/c17_auth.vrs; one clock reading per operation",
         "Session::create_with_lifetime replaced by its contract: returns a token different from every token in existence (256 bits from OsRng never repeat: ASSUMED) with expiry = now + lifetime; its hex formatting is not covered",
         "Argon2 password hashing/verification (User::create, User::verify) is not executed: the password half of the property is assumed, not decided",
         "SystemTime::now replaced by a ghost clock; well-formedness = distinct uids and pairwise distinct stored tokens",
     ],
-    not_covered=["password verification", "create_session_with_lifetime (same body as create_session with a caller-supplied lifetime)", "with_auth_route cookie handling (app.rs)", "databases with more than 2 users", "custom AuthDatabase implementations"],
+    not_covered=["password verification", "create_user / verify (Argon2)", "with_auth_route cookie handling (app.rs)", "databases with more than 2 users", "custom AuthDatabase implementations"],
 )
 
 
